@@ -653,3 +653,78 @@ func execDialer(f []string) vlib.Res {
 	}
 	return vlib.Res{Impl: fmt.Sprintf("index=%d", idx), Oracle: or, Tags: "nt"}
 }
+
+// ---------------------------------------------------------------- drain
+
+// execDrain: drain <s<len>|f|x,…> — the REAL tcpStream stage/flush over a pipe; ids = position in the script.
+func execDrain(f []string) vlib.Res {
+	if len(f) == 2 && f[1] == "new" {
+		return vlib.Res{Impl: "ok"}
+	}
+	if len(f) != 2 {
+		return vlib.Res{Impl: "bad-op"}
+	}
+	var ops []server.VerifC11DrainOp
+	var staged []int
+	broke := false
+	for i, t := range strings.Split(f[1], ",") {
+		switch {
+		case t == "f":
+			ops = append(ops, server.VerifC11DrainOp{Kind: 'f'})
+		case t == "x":
+			ops = append(ops, server.VerifC11DrainOp{Kind: 'x'})
+			broke = true
+		case strings.HasPrefix(t, "s"):
+			l := vlib.Atoi(t[1:])
+			if l < 2 {
+				return vlib.Res{Impl: "bad-op"}
+			}
+			ops = append(ops, server.VerifC11DrainOp{Kind: 's', ID: uint16(i), Len: l})
+			if l <= 65535 {
+				staged = append(staged, i)
+			}
+		default:
+			return vlib.Res{Impl: "bad-op"}
+		}
+	}
+	okays, wire, _ := server.VerifC11DrainRun(ops)
+	res := make([]byte, len(okays))
+	for i, o := range okays {
+		res[i] = 'e'
+		if o {
+			res[i] = 'o'
+		}
+	}
+	var ws []string
+	for _, w := range wire {
+		ws = append(ws, fmt.Sprint(w))
+	}
+	wireS := "-"
+	if len(ws) > 0 {
+		wireS = strings.Join(ws, ",")
+	}
+	// oracle: never twice, never out of order, nothing foreign; with the peer present
+	// and a final flush, every staged reply exactly once
+	or := "ok"
+	seen := map[uint16]bool{}
+	last := -1
+	for _, w := range wire {
+		switch {
+		case seen[w]:
+			or = fmt.Sprintf("FAIL sig=drain/reply-written-twice id=%d script=%s", w, f[1])
+		case int(w) <= last:
+			or = fmt.Sprintf("FAIL sig=drain/replies-out-of-order id=%d after=%d", w, last)
+		}
+		seen[w] = true
+		last = int(w)
+	}
+	if or == "ok" && !broke && strings.HasSuffix(f[1], ",f") {
+		for _, id := range staged {
+			if !seen[uint16(id)] {
+				or = fmt.Sprintf("FAIL sig=drain/staged-reply-lost id=%d script=%s", id, f[1])
+				break
+			}
+		}
+	}
+	return vlib.Res{Impl: fmt.Sprintf("res=%s wire=%s", res, wireS), Oracle: or, Tags: "nt"}
+}
